@@ -21,7 +21,7 @@ type Ev struct {
 
 // NetPolicy says what the driver may do to the network in this run.
 type NetPolicy struct {
-	ChunkBias   int // 0: mostly whole, 1: mixed, 2: mostly tiny
+	ChunkBias   int  // 0: mostly whole, 1: mixed, 2: mostly tiny
 	Whole       bool // always deliver everything that is in flight (no choice consumed)
 	Reorder     bool // datagrams may overtake each other
 	LossBudget  int  // datagrams that may still be dropped
